@@ -386,8 +386,34 @@ func runC15(cs c15Case, wts *wt.Server) (viol string, stats map[string]bool) {
 	}
 	if lastReader != nil {
 		buf := make([]byte, 8)
-		if n, err := lastReader.Read(buf); n != 0 || err == nil {
+		n, err := lastReader.Read(buf)
+		if n != 0 || err == nil {
 			return fmt.Sprintf("stale message reader returned n=%d err=%v after the connection failed", n, err), stats
+		}
+		// "every later read reports the same failure": the reader of the last message either says that its message
+		// is over (io.EOF) or reports what NextReader reports
+		if err != io.EOF && err != firstErr && !(errors.Is(err, firstErr) || err.Error() == firstErr.Error()) {
+			return fmt.Sprintf("after the connection failed the last message's reader reports %v, NextReader reports %v: two different failures", err, firstErr), stats
+		}
+	}
+	// a stream that ends cleanly on a frame boundary is reported the same way whether its end arrives together with
+	// the last bytes or on its own (on its own: an abnormal-closure close error, as for a connection that ends
+	// without a closing handshake)
+	if !cs.TailErr && len(frames) > 0 && i >= len(frames) && frames[len(frames)-1].complete {
+		clean := true
+		for _, f := range frames {
+			if !f.complete || f.declared >= 1<<63 || (cs.Limit > 0 && f.declared > uint64(cs.Limit)) {
+				clean = false
+			}
+		}
+		if clean {
+			stats["clean-end-on-a-frame-boundary"] = true
+			if cs.EndData {
+				stats["clean-end-arriving-with-the-last-bytes"] = true
+			}
+			if !isUnexpectedEnd(firstErr) {
+				return fmt.Sprintf("the stream ended on a frame boundary (end delivered together with the last bytes: %v): NextReader reports %v; when the end arrives on its own it reports an abnormal-closure close error", cs.EndData, firstErr), stats
+			}
 		}
 	}
 	return "", stats
